@@ -21,7 +21,7 @@ ASSUMPTIONS = [
 ]
 
 KIND_OPS = ["const", "query", "add", "alias", "lowest", "draw", "accumulate", "pool", "pool_index", "pool_slice", "matmul_p",
-            "flatten", "roller", "annotate", "setitem", "delitem", "rejected", "query", "query", "query", "select", "shorthand", "shorthand", "retype", "retype", "draw", "pool_twin", "pool_twin"]
+            "flatten", "roller", "annotate", "setitem", "delitem", "rejected", "query", "query", "query", "select", "shorthand", "shorthand", "retype", "retype", "draw", "pool_twin", "pool_twin", "rsources", "subst_fail"]
 
 
 def gen_cases(rng, tier):
@@ -40,6 +40,8 @@ def gen_cases(rng, tier):
                 ops.append(["retype", r[0], rng.choice(["float", "Fraction", "bool"])])
             elif k == "pool_twin":
                 ops.append(["pool_twin", r[0], rng.choice(["float", "Fraction", "scale2", "scale3"])])
+            elif k == "subst_fail":
+                ops.append(["subst_fail", r[0], rng.randint(1, 4), rng.randint(0, 5)])
             elif k == "matmul_p":
                 ops.append(["matmul_p", rng.choice([0, 1, 2, -1]), r[0]])
             elif k == "pool":
@@ -118,6 +120,51 @@ def impl_run(case):
                 items = [[gens.q(i), 1] for i in (range(1, n + 1) if n > 0 else range(n, 0))]
                 rop = ["const", items]
                 res = ("H", H(v))
+            elif k == "rsources":
+                # the sequence of sources a roller hands out cannot be used to rewrite the roller
+                ri_ = pick("R", op[1])
+                if ri_ is None:
+                    continue
+                r0 = pop[ri_][1]
+                extra_src = R.from_value(1)
+                attempts = [lambda: r0.sources.__setitem__(0, extra_src), lambda: r0.sources.__delitem__(0),
+                            lambda: r0.sources.append(extra_src), lambda: r0.sources.reverse(), lambda: r0.sources.clear(),
+                            lambda: setattr(r0, "sources", r0.sources + (extra_src,)), lambda: setattr(r0, "annotation", "changed")]
+                for j, att in enumerate(attempts):
+                    try:
+                        att()
+                        problems.append(f"in-place change #{j} of a roller's sources / annotation was accepted at step {step}")
+                    except (TypeError, AttributeError, IndexError):
+                        pass
+                check(step)
+                continue
+            elif k == "subst_fail":
+                # a substitution roller whose expansion operator fails part-way through a roll: the failed roll changes nothing
+                from dyce.r import SubstitutionRoller, CoalesceMode
+                ri_ = pick("R", op[1])
+                if ri_ is None:
+                    continue
+                calls = {"n": 0}
+
+                def failing_op(outcome, _k=op[2], _src=pop[ri_][1]):
+                    calls["n"] += 1
+                    if calls["n"] > _k:
+                        raise ValueError("expansion failed")
+                    return _src.roll()
+                rop = ["roller", [ri_], op[3]]
+                sr = SubstitutionRoller(failing_op, pop[ri_][1], CoalesceMode.APPEND, 3, annotation=op[3])
+                res = ("R", sr)
+                idx = add(res[0], res[1])
+                resolved.append(rop)
+                results.append({"ok": idx})
+                for _ in range(2):
+                    calls["n"] = 0
+                    try:
+                        sr.roll()
+                    except (ValueError, RecursionError):
+                        pass
+                    check(step)
+                continue
             elif k == "pool_twin":
                 # a pool whose dice are equal, one by one, to those of an existing pool but differ in scale or type
                 pi = pick("P", op[1])
@@ -241,7 +288,10 @@ def impl_run(case):
                 if op[2] == "list":
                     lst.clear()
                 srcs.clear()
-                res[1].roll()
+                try:
+                    res[1].roll()
+                except (ValueError, IndexError, TypeError):
+                    pass          # a source may be a roller whose expansion operator fails (subst_fail)
                 resolved.append(rop)
                 results.append({"ok": idx})
                 check(step)
